@@ -13,7 +13,9 @@ import sweep
 ITEMS = ["alpha-one", "beta two with a rather long tail that will not fit in the window", "gamma", "a b", "delta-ab", "ab", "epsilon",
          "zeta ab", "eta", "theta", "iota-a", "kappa", "lambda b", "mu"]
 ACTS = ["up", "down", "toggle", "toggle+up", "put(a)", "put(b)", "backward-delete-char", "last", "first", "select-all", "deselect-all",
-        "page-up", "page-down", "toggle-header", "change-header(HDR)", "toggle-wrap", "change-prompt(P> )", "toggle-sort", "RESIZE"]
+        "page-up", "page-down", "toggle-header", "change-header(HDR)", "toggle-wrap", "change-prompt(P> )", "toggle-sort", "RESIZE", "RELOAD"]
+ITEMS2 = ["one-alpha", "two beta with a rather long tail that will not fit in the window either", "gamma2", "b a", "ab-delta", "ba", "epsilon2",
+          "ab zeta", "eta2", "theta2", "a-iota", "kappa2", "b lambda", "nu"]
 ELL = "··"
 
 
@@ -39,7 +41,8 @@ def strip_border(row, border):
     return row
 
 
-def structural(cfg, rows, x, q, prompt, header_on, header_text, wrap):
+def structural(cfg, rows, x, q, prompt, header_on, header_text, wrap, all_items=None):
+    all_items = all_items or ITEMS
     """returns a list of problems ([] = fine)"""
     probs = []
     body = [strip_border(r, cfg["border"]) for r in rows]
@@ -92,12 +95,12 @@ def structural(cfg, rows, x, q, prompt, header_on, header_text, wrap):
                 idx = k
                 break
         if idx is None:
-            hl = ITEMS[:cfg["header_lines"]]
+            hl = all_items[:cfg["header_lines"]]
             if any(shows(text, t) for t in hl):
                 if not header_on:
                     probs.append("header line %r on screen although the header is hidden" % text)
                 continue
-            if any(shows(text, t) for t in ITEMS):
+            if any(shows(text, t) for t in ITEMS + ITEMS2):
                 probs.append("item-row %d shows %r which is not among the matches (stale row)" % (i, text))
             continue
         if text.endswith(ELL) and matches[idx] != text:
@@ -143,13 +146,18 @@ def run_hist(job):
     res = dict(evals=0, nt=1 if hist else 0, trans=len(hist))
     q, prompt, header_on, header_text, wrap, sort = "", "> ", True, "H0", False, True
     lines = ITEMS[cfg["header_lines"]:]
+    all_items = ITEMS
     try:
         x, ok = s.wait_loaded(len(lines))
         if not ok:
             res["inconclusive"] = "not loaded"
             return res
         for i, a in enumerate(hist):
-            if a == "RESIZE":
+            if a == "RELOAD":
+                all_items = ITEMS2 if all_items is ITEMS else ITEMS
+                s.post("reload(printf '%%s\\n' %s)" % " ".join("'%s'" % t for t in all_items))
+                lines = all_items[cfg["header_lines"]:]
+            elif a == "RESIZE":
                 rows, cols = (rows + 1, cols + 3) if i % 2 == 0 else (rows - 1, cols - 3)
                 s.resize(rows, cols)
                 cfg = dict(cfg, size=(rows, cols))
@@ -188,7 +196,7 @@ def run_hist(job):
             over1 = s.screen.overflow
             res["evals"] += 1
             # oracle 2 on the incrementally drawn screen
-            probs = structural(cfg, inc, x, q, prompt, header_on, header_text, wrap)
+            probs = structural(cfg, inc, x, q, prompt, header_on, header_text, wrap, all_items)
             s.post("clear-screen")
             time.sleep(0.03)
             full = s.settle_screen(0.06)
